@@ -3,6 +3,7 @@ from __future__ import annotations
 
 import json
 import os
+import pickle
 import subprocess
 import sys
 from concurrent.futures import ThreadPoolExecutor
@@ -11,17 +12,17 @@ from typing import Any, Dict, List, Optional, Tuple
 from . import common
 
 
-def run_workers(specs: List[Dict[str, Any]], parallel: int = 12, timeout: int = 1500) -> List[Dict[str, Any]]:
+def run_workers(specs: List[Dict[str, Any]], parallel: int = 12, timeout: int = 1500, module: str = "harness.traj") -> List[Dict[str, Any]]:
     """Each spec may carry spec['hashseed'] (PYTHONHASHSEED of the worker process)."""
     work = common.tmpdir("verif_traj_")
 
     def one(i_spec):
         i, spec = i_spec
-        sp, op = work / f"s{i}.json", work / f"o{i}.json"
-        sp.write_text(json.dumps(spec))
+        sp, op = work / f"s{i}.pkl", work / f"o{i}.json"
+        sp.write_bytes(pickle.dumps(spec))  # (not JSON: scenario dicts have integer keys)
         env = dict(os.environ)
         env["PYTHONHASHSEED"] = str(spec.get("hashseed", 0))
-        p = subprocess.run([sys.executable, "-m", "harness.traj", str(sp), str(op)], cwd=str(common.VERIF), env=env,
+        p = subprocess.run([sys.executable, "-m", module, str(sp), str(op)], cwd=str(common.VERIF), env=env,
                            capture_output=True, text=True, timeout=timeout)
         if not op.exists():
             raise RuntimeError(f"trajectory worker failed (machinery): {p.stderr[-2000:]}")
